@@ -20,6 +20,72 @@ def concrete_corrections(m):
     return base, [k for k in m.subclasses(base, strict=True)]
 
 
+def fold_workflow(f):
+    """Symbolic fold of BaseCorrection.__call__ for every combination of input kind, overwrite flag, series flag, presence of
+    correct_array_series and scalar flag (three time slices).  Returns {"a": [...], "c": [...], "views": [...]} -- disagreements
+    with the documented workflow (a), with the per-slice series clause (c), and the correct_array calls of the non-overwrite runs that
+    receive a view of the input data -- or None when the method leaves the folding language."""
+    from ..fold import Folder, Obj, Opaque, Raised, Refuse, Sym
+
+    out = {"a": [], "c": [], "views": []}
+    NT = 3
+
+    def run(kind, ow, series=False, has=False, scalar=True):
+        fo = Folder(symbolic=True)
+        fo.func_stack.append(f.node)
+        fo.fold_all_methods = True
+        fields = {"__class__": "BaseCorrection"}
+        if has:
+            fields["correct_array_series"] = Opaque("callable", "self.correct_array_series")
+        if kind == "array":
+            inp = Opaque("ndarray", "IN")
+        else:
+            inp = Obj("image", {"__class__": "Image", "img": Opaque("arr", "DATA"), "series": series, "scalar": scalar, "time_num": NT, "space_dim": Opaque("int", "SD")})
+        r = fo.call(f.node, [Obj("self", fields), inp, ow])
+        return r, [repr(t) for t in fo.trace], inp
+
+    try:
+        for ow in (True, False):
+            r, tr, inp = run("array", ow)
+            want = "self.correct_array(<opaque ndarray IN>)" if ow else "self.correct_array(IN.copy())"
+            if repr(r) != want:
+                out["a"].append(f"array input, overwrite={ow}: returns {r!r}, documented {want}")
+        for ow in (True, False):
+            for series, has, scalar in ((False, False, True), (False, True, True), (True, True, True), (True, True, False), (True, False, True), (True, False, False)):
+                r, tr, inp = run("image", ow, series, has, scalar)
+                case = f"image input, overwrite={ow}, series={series}, correct_array_series {'present' if has else 'absent'}, scalar={scalar}"
+                data = "<opaque arr DATA>" if ow else "DATA.copy()"
+                if not series:
+                    wants = [f"self.correct_array({data})"]
+                elif has:
+                    wants = [f"self.correct_array_series({data})"]
+                else:
+                    tail = "" if scalar else ", :"
+                    wants = [f"np.stack([{', '.join(f'self.correct_array({base}[Ellipsis, {t}{tail}]())' for t in range(NT))}], axis=<opaque int SD>)" for base in ("DATA", "DATA.copy()")]
+                if ow:
+                    got = repr(inp.fields.get("img"))
+                    ret_ok = r is inp
+                    upd = "image.update_metadata(self.correct_metadata(image.metadata()))" in tr
+                    if not ret_ok:
+                        out["a"].append(f"{case}: returns {r!r}, not the input object")
+                    if not upd:
+                        out["a"].append(f"{case}: update_metadata(correct_metadata(metadata())) is not called on the input")
+                else:
+                    if not (isinstance(r, Sym) and r.fn == "type(image)" and len(r.args) == 1 and set(r.kw) == {"**"}):
+                        return None
+                    got = repr(r.args[0])
+                    if repr(r.kw["**"]) != "image.metadata()" or "image.metadata().update(self.correct_metadata(image.metadata()))" not in tr:
+                        out["a"].append(f"{case}: the copy is built with metadata {r.kw['**']!r} (updates applied: {[t for t in tr if '.update(' in t]})")
+                    if repr(inp.fields.get("img")) != "<opaque arr DATA>" or any(t.startswith("image.update_metadata(") for t in tr):
+                        out["a"].append(f"{case}: the input image is modified although overwrite is False")
+                    out["views"].extend(t for t in tr if t.startswith("self.correct_array") and ("(DATA[" in t or "(<opaque arr DATA>" in t) and t not in out["views"])
+                if got not in wants:
+                    out["c" if series and not has else "a"].append(f"{case}: corrected data is {got}, documented {wants[0]}")
+    except (Refuse, Raised):
+        return None
+    return out
+
+
 def rule_a(ctx):
     R = "C10.a"
     ctx.rule(R, "the shared workflow implements copy vs overwrite: arrays -- overwrite returns correct_array(input), otherwise "
@@ -36,7 +102,19 @@ def rule_a(ctx):
     ctx.ob(R, base.qname, "no correction overrides the shared __call__ workflow", not over, str(over), base.node)
     ctx.stat("correction_classes", len(subs))
     top = [st for st in f.node.body if isinstance(st, ast.If)]
+    recognised = len(top) == 1 and norm(top[0].test) == f"isinstance({p}, np.ndarray)" and top[0].orelse and isinstance(top[0].orelse[0], ast.If) \
+        and norm(top[0].orelse[0].test) == f"isinstance({p}, darsia.Image)"
+    sem = fold_workflow(f)
+    if sem is not None and not recognised:
+        # restructured workflow: decided by the symbolic fold over all input cases
+        ctx.ob(R, f.qname, "workflow folded over input kind x overwrite x series x correct_array_series x scalar agrees with the documented one", not sem["a"], "; ".join(sem["a"][:3]), f.node, evidence=True)
+        ctx.floor(R, 1)
+        from ..amatch import helper_closure
+
+        return f, [s_ for h in helper_closure(f) for s_ in h.node.body], sem
     ctx.need(len(top) == 1, "BaseCorrection.__call__: expected one top-level dispatch on the input kind")
+    if sem is not None:
+        ctx.ob(R, f.qname, "workflow folded over input kind x overwrite x series x correct_array_series x scalar agrees with the documented one", not sem["a"], "; ".join(sem["a"][:3]), f.node, evidence=True)
     arr_b, img_b = top[0].body, (top[0].orelse[0].body if top[0].orelse and isinstance(top[0].orelse[0], ast.If) else [])
     ctx.ob(R, f.qname, "dispatch: ndarray first, then darsia.Image", norm(top[0].test) == f"isinstance({p}, np.ndarray)" and top[0].orelse and norm(top[0].orelse[0].test) == f"isinstance({p}, darsia.Image)", norm(top[0].test), top[0])
     # array branch
@@ -63,10 +141,10 @@ def rule_a(ctx):
     single = am.has(ast.Module(body=img_b, type_ignores=[]), "img = self.correct_array(img)")
     ctx.ob(R, f.qname, "single images: the working data goes through correct_array", single is not None, "", f.node)
     ctx.floor(R, 1)
-    return f, img_b
+    return f, img_b, sem
 
 
-def rule_b(ctx, E, f, img_b):
+def rule_b(ctx, E, f, img_b, sem=None):
     R = "C10.b"
     ctx.rule(R, "a non-overwrite call cannot write through to the input: every correct_array / correct_array_series call on the image path "
              "that receives (a view of) image.img rather than the working copy is paired with the effect summaries of all concrete "
@@ -84,6 +162,9 @@ def rule_b(ctx, E, f, img_b):
                     b = b.value
                 if norm(b) == f"{p}.img":
                     sites.append(c)
+    if sem is not None and not sites:
+        # the folded non-overwrite runs show which correct_array calls receive (a view of) the input data
+        sites = [ast.parse(v.replace("<opaque arr DATA>", "DATA").replace("]()", "]").replace("Ellipsis", "..."), mode="eval").body for v in sem["views"]]
     mutators = []
     n_cls = 0
     for k in subs:
@@ -112,12 +193,17 @@ def rule_b(ctx, E, f, img_b):
     ctx.stat("view_sites", len(sites))
 
 
-def rule_c(ctx, f, img_b):
+def rule_c(ctx, f, img_b, sem=None):
     R = "C10.c"
     ctx.rule(R, "series = per-slice: the series branch applies correct_array to img[..., t] (scalar) / img[..., t, :] (vector) for t in "
              "range(time_num) and re-stacks on axis=space_dim")
     p = f.params[1]
     ctx.instance(R)
+    if sem is not None:
+        ctx.ob(R, f.qname, "series without correct_array_series: np.stack([correct_array(img[..., t(, :)]) for t in range(time_num)], axis=space_dim) (folded, 3 slices)",
+               not sem["c"], "; ".join(sem["c"][:2]), f.node, evidence=True)
+        ctx.floor(R, 1)
+        return
     loops = [l for st in img_b for l in ast.walk(st) if isinstance(l, ast.For)]
     ok = len(loops) == 1 and norm(loops[0].iter) == f"range({p}.time_num)"
     ctx.ob(R, f.qname, "one loop over range(image.time_num)", ok, str([norm(l.iter) for l in loops]), f.node)
@@ -243,9 +329,9 @@ def rule_e(ctx):
 
 def run(ctx):
     E = Effects(ctx.model)
-    f, img_b = rule_a(ctx)
-    rule_b(ctx, E, f, img_b)
-    rule_c(ctx, f, img_b)
+    f, img_b, sem = rule_a(ctx)
+    rule_b(ctx, E, f, img_b, sem)
+    rule_c(ctx, f, img_b, sem)
     rule_d(ctx)
     rule_e(ctx)
     rule_f(ctx, E)
